@@ -8,6 +8,7 @@ size `k`, every duplicate-free target tuple `t : Fin k → Fin n` (in any order)
 -/
 import NumqiProofs.SimLemmas
 import NumqiProofs.SimSlice
+import NumqiProofs.ScalarInstances
 import Mathlib.Data.Complex.Basic
 
 namespace Numqi.C03
@@ -655,6 +656,23 @@ theorem flatIndex_bijective (n : Nat) :
 
 /-- `reshape(-1)` after `reshape([2]*n)` is the identity (the model's array round trip) -/
 theorem lookup_tabulate_id [Zero R] (ψ : Vec n R) : lookup (tabulate ψ) = ψ := lookup_tabulate ψ
+
+/-! ### the executed carriers -/
+
+/-- **The statement about exactly what the driver computes**: `applyGate` evaluated with the model's own `ℤ[i]` operations
+(`GInt.instAdd`, `GInt.instMul`, `GInt.instZero` of `NumqiModel/Scalar.lean`) is multiplication by the embedded operator.
+`GInt` is a commutative star ring on those very operations (`NumqiProofs/ScalarInstances.lean`), so this is
+`applyGate_eq_embed` at `R = GInt`, accepted by definitional unfolding. -/
+theorem applyGate_eq_embed_GInt {t : Fin k → Fin n} (ht : Injective t) (U : Mat k GInt) (ψ : Vec n GInt) :
+    @applyGate GInt n k GInt.instAdd GInt.instMul GInt.instZero U t ψ
+      = (Matrix.of (@embed GInt n k GInt.instZero U t)).mulVec ψ :=
+  applyGate_eq_embed ht U ψ
+
+/-- the same for the circuit fold at `ℚ[i]`, the carrier used for non-integer gates -/
+theorem applyStateA_eq_QI (c : List (Op n QI)) (hc : ∀ g ∈ c, g.WF) (a : Array QI) :
+    @lookup QI n QI.instZero (@applyStateA QI n QI.instAdd QI.instMul QI.instZero c a)
+      = (circuitMatrix c).mulVec (@lookup QI n QI.instZero a) :=
+  applyStateA_eq c hc a
 
 /-! ### the hypotheses are satisfiable, the statements are not vacuous -/
 
